@@ -24,10 +24,9 @@ TRUSTED = ["Coq 8.16.1 kernel", "extraction (ExtrOcamlBasic only; Z/positive/nat
            "statement layout and growth/shift statements in gen/Gen_VG.v)",
            "modelled, not verified: the element store below Vdetach/Load_vfile (Hputelement/Hgetelement/Hdeldd/"
            "HDreuse_tagref are a finite map ref -> bytes; see C01/C12), the TBBT (an ordered table), Vdata records "
-           "(a table ref -> name, class; see C07), vg->access"]
+           "(a table ref -> name, class; see C07)"]
 ASSUMPTIONS = ["domain: all Vgroup/Vdata handles are detached before the file is closed; Vdelete/VSdelete only of "
-               "objects without open handles (stale handles are C13); edits only through handles attached with 'w'; "
-               "tags/refs in 0..65535, names without NUL and <= 65535 bytes, fewer than 65535 members (C20); "
+               "objects without open handles (stale handles are C13); tags/refs in 0..65535, names without NUL; "
                "Vfind/Vfindclass/VSfind/VSfindclass not with the empty string; reference numbers of new objects are "
                "inputs (allocation is C12)"]
 
